@@ -126,3 +126,77 @@ pub fn shrink(
     }
     (best, attempts)
 }
+
+/// Several engines behind one check: run index decides which part runs.
+pub struct Composite {
+    pub name: &'static str,
+    pub parts: Vec<(Box<dyn Engine>, u64)>,
+}
+
+impl Composite {
+    fn part_of(&self, index: u64) -> usize {
+        let total: u64 = self.parts.iter().map(|p| p.1).sum();
+        let mut x = index % total.max(1);
+        for (i, p) in self.parts.iter().enumerate() {
+            if x < p.1 {
+                return i;
+            }
+            x -= p.1;
+        }
+        0
+    }
+    fn unwrap<'a>(&self, trace: &'a Value) -> (usize, &'a Value) {
+        let i = trace["part"].as_u64().unwrap_or(0) as usize;
+        (i.min(self.parts.len() - 1), &trace["t"])
+    }
+}
+
+impl Engine for Composite {
+    fn name(&self) -> &'static str {
+        self.name
+    }
+    fn generate(&self, run_seed: u64, index: u64, property: &str, thorough: bool) -> Value {
+        let i = self.part_of(index);
+        serde_json::json!({"part": i, "engine": self.parts[i].0.name(), "t": self.parts[i].0.generate(run_seed, index, property, thorough)})
+    }
+    fn execute(&self, trace: &Value, ctx: &mut RunCtx) {
+        let (i, t) = self.unwrap(trace);
+        ctx.count(&format!("part:{}", self.parts[i].0.name()));
+        self.parts[i].0.execute(t, ctx)
+    }
+    fn shrink_candidates(&self, trace: &Value, key: &str) -> Vec<Value> {
+        let (i, t) = self.unwrap(trace);
+        self.parts[i]
+            .0
+            .shrink_candidates(t, key)
+            .into_iter()
+            .map(|c| serde_json::json!({"part": i, "engine": self.parts[i].0.name(), "t": c}))
+            .collect()
+    }
+    fn narrow(&self, trace: &Value, ctx: &RunCtx) -> Value {
+        let (i, t) = self.unwrap(trace);
+        serde_json::json!({"part": i, "engine": self.parts[i].0.name(), "t": self.parts[i].0.narrow(t, ctx)})
+    }
+    fn abort_key(&self, trace: &Value, how: &str) -> String {
+        let (i, t) = self.unwrap(trace);
+        self.parts[i].0.abort_key(t, how)
+    }
+    fn distinct_rule(&self, property: &str) -> String {
+        self.parts
+            .iter()
+            .map(|p| format!("[{}] {}", p.0.name(), p.0.distinct_rule(property)))
+            .collect::<Vec<_>>()
+            .join(" ")
+    }
+    fn assumptions(&self, property: &str) -> Vec<String> {
+        let mut v = Vec::new();
+        for p in &self.parts {
+            for a in p.0.assumptions(property) {
+                if !v.contains(&a) {
+                    v.push(a);
+                }
+            }
+        }
+        v
+    }
+}
